@@ -38,20 +38,30 @@ class Spans:
         return NotImplemented
 
     def __getitem__(self, sl):
-        # only prefix slices buffer[:n] are used by the code under analysis
-        if not (isinstance(sl, slice) and sl.start is None and sl.step is None):
-            raise TypeError("Spans: only prefix slices are modelled")
-        n = sl.stop
+        # slices buffer[a:b] (no step) with 0 <= a; clipping as for bytes
+        if not (isinstance(sl, slice) and sl.step is None):
+            raise TypeError("Spans: only plain slices are modelled")
+        total = len(self)
+        a = 0 if sl.start is None else sl.start
+        b = total if sl.stop is None else sl.stop
+        if a < 0:
+            a = a + total
+            if a < 0:
+                a = 0
+        if b < 0:
+            b = b + total
+            if b < 0:
+                b = 0
+        if b > total:
+            b = total
         out = []
+        pos = 0
         for (s, l) in self.parts:
-            if n <= 0:
-                break
-            if l <= n:
-                out.append((s, l))
-                n = n - l
-            else:
-                out.append((s, n))
-                n = 0
+            lo = a - pos if a > pos else 0
+            hi = b - pos if b - pos < l else l
+            if hi > lo:
+                out.append((s + lo, hi - lo))
+            pos = pos + l
         return Spans(out)
 
     def at(self, k):
@@ -102,13 +112,34 @@ class AbsFile:
 
 
 def content(a):
-    """deterministic content byte of the real replay file at address a"""
-    return ((a * 2654435761) >> 7) & 0xFF ^ (a & 0xFF)
+    """deterministic content byte of the real replay file at address a (a 32-bit mix: equal bytes at related addresses -
+    a + k*2^n - must not be systematically equal, or a read from the wrong sector would go unnoticed)"""
+    x = (a * 2654435761) & 0xFFFFFFFF
+    x ^= x >> 15
+    x = (x * 2246822519) & 0xFFFFFFFF
+    x ^= x >> 13
+    x = (x * 3266489917) & 0xFFFFFFFF
+    x ^= x >> 16
+    return x & 0xFF
+
+
+def _content_bytes(size):
+    try:
+        import numpy as np
+        x = (np.arange(size, dtype=np.uint64) * np.uint64(2654435761)) & np.uint64(0xFFFFFFFF)
+        x ^= x >> np.uint64(15)
+        x = (x * np.uint64(2246822519)) & np.uint64(0xFFFFFFFF)
+        x ^= x >> np.uint64(13)
+        x = (x * np.uint64(3266489917)) & np.uint64(0xFFFFFFFF)
+        x ^= x >> np.uint64(16)
+        return (x & np.uint64(0xFF)).astype(np.uint8).tobytes()
+    except ImportError:
+        return bytes(content(a) for a in range(size))
 
 
 class RealFile(io.BytesIO):
     def __init__(self, size):
-        super().__init__(bytes(content(a) for a in range(size)))
+        super().__init__(_content_bytes(size))
         self.size = size
 
 
